@@ -34,6 +34,7 @@ CONSTANTS N,          \* number of headers
           MaxCount,   \* reservation sizes 1..MaxCount
           MaxFaults,  \* bound on fault actions (>= 99: unbounded)
           W,          \* number of slots of the result window (len(resultCache))
+          MaxProc,    \* maxResultsProcess: Results hands out at most this many items per call and keeps the rest
           MaxOps,     \* behaviour length in generation mode
           GenMode,    \* "none" (design checking) | "leaf" (behaviour generation)
           Alphabet,   \* "full" | "small"
@@ -62,7 +63,7 @@ Body == [k \in Hdrs |-> (BodyCode \div Pow10(k - 1)) % 10]
 NilSlot == [a |-> FALSE, p |-> 0, b |-> -1]
 Gen == GenMode # "none"
 
-InitRec == [op |-> "Init", n |-> N, body |-> Body, w |-> W, peers |-> Peers, maxc |-> MaxCount]
+InitRec == [op |-> "Init", n |-> N, body |-> Body, w |-> W, peers |-> Peers, maxc |-> MaxCount, maxp |-> MaxProc]
 
 Init == /\ sched = 0 /\ pool = {} /\ queue = [h \in Hdrs |-> 0] /\ pend = [p \in Peers |-> <<>>] /\ done = {}
         /\ slot = [h \in Hdrs |-> NilSlot] /\ offset = 0 /\ lacks = [p \in Peers |-> {}] /\ faults = 0
@@ -202,7 +203,7 @@ Processable(i) == IF i > W \/ offset + i > N THEN i - 1
                   ELSE Processable(i + 1)
 
 Results ==
-   LET n == Processable(1) IN
+   LET n == IF Processable(1) > MaxProc THEN MaxProc ELSE Processable(1) IN     \* the batch limit: the rest stays in the window
    /\ (n = 0 => Noops)
    /\ Tick([op |-> "Results"])
    /\ delivered' = delivered \o [i \in 1..n |-> [h |-> offset + i, b |-> IF slot[offset + i].b = -1 THEN 0 ELSE slot[offset + i].b]]
